@@ -54,7 +54,7 @@ pub fn run(seed: u64, ntraces: usize) {
         let min_delay = *r.pick(&[0u64, 50, 3600]);
         let st = w.deploy(&owner, &gov, b"governance", vec![gw.to_vec(), gchain.clone(), gaddr.clone(), big(min_delay), gop.to_vec()]);
         // the governance contract owns some EGLD for proposals with a native value
-        let gov_funds: u64 = 500;
+        let gov_funds: u64 = if t % 8 == 4 { 0 } else { 500 };      // a contract without own funds: credits can exceed what it holds
         w.r.blockchain_mock.state.accounts.get_mut(&gov).unwrap().egld_balance += bn(gov_funds);
         let mut funds: Vec<Value> = users.iter().map(|u| json!([hx(u.as_bytes()), "1000000", [[hx(&tok), "1000000"], [hx(&tok2), "1000000"], [hx(&sftk(5)), "1000"], [hx(&sftk(6)), "1000"]]])).collect();
         funds.push(json!([hx(gov.as_bytes()), gov_funds.to_string(), []]));
@@ -69,6 +69,7 @@ pub fn run(seed: u64, ntraces: usize) {
             Prop { target: target.clone(), call_data: call_data(b"big", &[], 0), value: 100_000 },         // more than the contract holds
             Prop { target: target.clone(), call_data: vec![0, 0, 0, 9, 1], value: 0 },                     // undecodable call data
             Prop { target: target.clone(), call_data: call_data(b"gas", &[], 999_000_000), value: 0 },     // min gas above what is available
+            Prop { target: target.clone(), call_data: call_data(b"pay", &[], 0), value: 5 },
         ];
         let mut steps: Vec<Value> = vec![];
         let mut pending: Vec<Pending> = vec![];
@@ -87,6 +88,9 @@ pub fn run(seed: u64, ntraces: usize) {
         if t % 8 == 1 { queue = vec![("cmd", 1, 2, 0), ("exec", 1, 1, 0), ("cmd", 1, 3, 0), ("deliver_fail", 0, 0, 0), ("callback", 0, 0, 0), ("exec", 1, 1, 0)]; }
         // the operator role moves while an operator dispatch with a payment attached is in flight, then the call fails: the credit belongs to the dispatcher
         if t % 8 == 2 { queue = vec![("cmd", 1, 2, 0), ("exec", 1, 1, 2), ("xfer_op", 0, 0, 0), ("deliver_fail", 0, 0, 0), ("callback", 0, 0, 0), ("refund", 0, 0, 0), ("refund", 0, 0, 0)]; }
+        // a credit of 7 EGLD, then a successful dispatch pays 5 of the contract's 7 away: the withdrawal of the credit cannot be honoured in full and must fail, keeping the credit
+        if t % 8 == 4 { queue = vec![("cmd", 0, 0, 0), ("jump", 0, 0, 0), ("exec", 0, 0, 1), ("deliver_fail", 0, 0, 0), ("callback", 0, 0, 0),
+                                     ("cmd", 6, 0, 0), ("jump", 6, 0, 0), ("exec", 6, 0, 5), ("deliver_ok", 0, 0, 0), ("callback", 0, 0, 0), ("refund", 0, 0, 0), ("refund", 0, 0, 0)]; }
         if t % 8 == 3 { queue = vec![("cmd", 0, 0, 0), ("jump", 0, 0, 0), ("exec", 0, 0, 7), ("xfer_op", 0, 0, 0), ("deliver_fail", 0, 0, 0), ("callback", 0, 0, 0), ("refund", 0, 0, 0)]; }
         for _ in 0..nops {
             // time: sometimes jump to (just before / exactly) a scheduled eta
@@ -99,7 +103,7 @@ pub fn run(seed: u64, ntraces: usize) {
             let has_undelivered = pending.iter().any(|p| p.result.is_none());
             let has_delivered = pending.iter().any(|p| p.result.is_some());
             let k = match forced { Some(("cmd", _, _, _)) => 100, Some(("exec", _, 0, _)) => 6, Some(("exec", _, _, _)) => 9,
-                        Some(("deliver_fail", _, _, _)) => 12, Some(("callback", _, _, _)) => 15, Some(("jump", _, _, _)) => 17, Some(("refund", _, _, _)) => 17, Some(("xfer_op", _, _, _)) => 18, _ => 0 };
+                        Some(("deliver_fail", _, _, _)) => 12, Some(("deliver_ok", _, _, _)) => 12, Some(("callback", _, _, _)) => 15, Some(("jump", _, _, _)) => 19, Some(("refund", _, _, _)) => 17, Some(("xfer_op", _, _, _)) => 18, _ => 0 };
             let k = if forced.is_some() { k }
                     else if has_delivered && r.chance(1, 3) { 15 }
                     else if has_undelivered && r.chance(1, 3) { 12 }
@@ -183,6 +187,7 @@ pub fn run(seed: u64, ntraces: usize) {
                 let govbal = w.r.blockchain_mock.state.accounts.get(&gov).unwrap().egld_balance.clone();
                 let mut ok = r.chance(1, 2);
                 if let Some(("deliver_fail", _, _, _)) = forced { ok = false; }
+                if let Some(("deliver_ok", _, _, _)) = forced { ok = true; }
                 if govbal < value { ok = false; }
                 let rets: Vec<Vec<u8>> = if ok && r.chance(1, 2) { vec![vec![0xaa], vec![]] } else { vec![] };
                 let forged = if ok { TxResult { result_status: 0, result_values: rets.clone(), ..TxResult::empty() } }
